@@ -37,6 +37,7 @@ type provRunner struct {
 	chanSeq  int
 	tryChans []string
 	connOf   map[string]string
+	firstDue map[string]int64 // consumer -> removal time scheduled by its first stop
 }
 
 func newProvRunner(t *Trace) *provRunner {
@@ -851,6 +852,16 @@ func (p *provRunner) emitState() {
 		for _, k := range keys {
 			if prev == nil || prev[k] != s[k] {
 				kv = append(kv, k, s[k])
+			}
+		}
+		if s["phase"] == "4" && (prev == nil || prev["phase"] != "4") {
+			if p.firstDue == nil {
+				p.firstDue = map[string]int64{}
+			}
+			if _, ok := p.firstDue[id]; !ok {
+				if t, err := strconv.ParseInt(s["removal"], 10, 64); err == nil {
+					p.firstDue[id] = t
+				}
 			}
 		}
 		p.prev[id] = s
